@@ -31,6 +31,7 @@ DOC = {
     "numpydoc": ["Do the thing", "", "Parameters", "----------", "a : int", "    the a", "b : str", "    the b", "", "Returns", "-------",
                  "str", "    the result"],
 }
+DOC["types_only"] = [":type a: ```int```", ":type b: ```str```", "", ":rtype: ```str```"]
 CLASSDOC = {
     "rest": ["Hold things", "", ":cvar x: the x", ":cvar y: the y"],
     "google": ["Hold things", "", "Attributes:", "  x (int): the x", "  y (str): the y"],
@@ -91,10 +92,14 @@ def definition(d, name, ind=""):
         h[-1] = h[-1] + " return a"
         return h
     lines = h
-    if d["doc"] != "none":
+    if d["doc"] == "blank":
+        lines.append('{}    """ """'.format(ind))
+    elif d["doc"] != "none":
         lines.append('{}    """'.format(ind))
         lines += [(ind + "    " + ln) if ln else "" for ln in DOC[d["doc"]]]
         lines.append('{}    """'.format(ind))
+    if d["body"] == "doconly":
+        return lines
     lines += ["{}    c = [a, b]  # trailing comment".format(ind), "{}    if c:".format(ind), "{}        c.append(1)".format(ind),
               "{}    return str(c)".format(ind)]
     return lines
@@ -272,7 +277,8 @@ def run_case(args):
             if after != src:
                 res["fails"].append(("AtomicOnError", "doctrans failed ({}) but the file is no longer byte-identical".format(raised)))
             if raised != "injected":
-                res["fails"].append(("raises", "doctrans raises {}".format(raised)))
+                # the statement allows a conversion to fail as long as the file is left as it was: diagnostic only
+                res["gave_up"] = raised
             return res
         if failat and reached[0]:
             res["fails"].append(("AtomicOnError", "the injected fault was swallowed"))
@@ -343,6 +349,7 @@ def _check(run, replay, work):
         cases = [c for c in cases if len(c["prog"]) == 1] + rnd.sample(two, min(30000, len(two)))
     items = [(c, work) for c in cases]
     tri = {}
+    gave_up = {}
     n = 0
     for rb in pmap(_batch, [items[k:k + 16] for k in range(0, len(items), 16)], chunksize=1):
         for res in rb:
@@ -355,21 +362,30 @@ def _check(run, replay, work):
             label = "{} style={} annotations={} failat={}".format(
                 "+".join("{}/{}/{}/{}".format(d["kind"], d["sig"], d["doc"], d["body"]) for d in case["prog"]),
                 case["cfg"]["style"], case["cfg"]["annotations"], case["failat"])
+            if res.get("gave_up") and not res["fails"]:
+                gave_up[(case["prog"][0]["body"], case["prog"][0]["doc"], res["gave_up"][:40])] = \
+                    gave_up.get((case["prog"][0]["body"], case["prog"][0]["doc"], res["gave_up"][:40]), 0) + 1
+                if not any(d["doc"] == "blank" or (d["body"] == "doconly" and d["doc"] == "types_only") for d in case["prog"]):
+                    run.model_drift("DocTrans.tla completes on {} but doctrans gives up ({}); the file is untouched".format(label, res["gave_up"]))
             if not res["fails"]:
                 run.held(key)
             else:
-                unexplained = [(c, m) for c, m in res["fails"] if CLAUSE_FINDING.get(c) not in case["devs"]]
+                unexplained = [(c, m) for c, m in res["fails"] if CLAUSE_FINDING.get(c) not in case["devs"]
+                               and not (c == "ValidPython" and "doctrans_async_stub_loses_its_body" in case["devs"] and "expected an indented block" in m)]
                 if unexplained:
                     run.violation("{}: {}".format(label, "; ".join(m for _, m in unexplained[:3])),
                                   {"case": case, "after": res.get("after"), "raised": res.get("raised")}, key=key)
                     k2 = (unexplained[0][0], case["prog"][0]["kind"], case["prog"][0]["sig"], case["prog"][0]["doc"], unexplained[0][1][:60])
                     tri[k2] = tri.get(k2, 0) + 1
                 else:
-                    for fid in sorted({CLAUSE_FINDING[c] for c, _ in res["fails"]}):
-                        run.finding(fid, "{}: {}".format(label, next(m for c, m in res["fails"] if CLAUSE_FINDING[c] == fid)[:200]),
-                                    case={"case": case}, key=key)
+                    for c, m in res["fails"]:
+                        fid = CLAUSE_FINDING.get(c)
+                        if fid not in case["devs"]:
+                            fid = "doctrans_async_stub_loses_its_body"
+                        run.finding(fid, "{}: {}".format(label, m[:200]), case={"case": case}, key=key)
             if len(run.samples) < 2 and res.get("after") and not res["fails"] and n % 307 == 1:
                 run.sample({"prog": case["prog"], "cfg": case["cfg"], "after": res["after"][:600]})
+    run.extra["conversions_that_gave_up_with_the_file_untouched"] = {"/".join(k): v for k, v in sorted(gave_up.items())}
     if os.environ.get("VERIF_TRIAGE"):
         agg = {}
         for k, v in tri.items():
